@@ -6,7 +6,7 @@
 EXTENDS Operators, Json, SequencesExt
 VARIABLE st
 
-Ops == {"a", "b"}
+Ops == {"a", "b", "c"}   \* three, so that every removal order of a set with an element before and after it occurs
 Acts(s) ==
     {[name |-> n, acct |-> x, auth |-> au] : n \in {"AddOperator", "RemoveOperator"}, x \in Ops,
         au \in {{s.owner}, {"a"}, {}}}
